@@ -153,7 +153,7 @@ def c04_cfgs(tier):
         return q
     t = list(q)
     t += [cfg('c04', 2, n=3, ringf=2, ringx=8, **base), cfg('c04', 2, n=3, ringf=1, ringx=1, **base),
-          cfg('c04', 'D3', n=3, ringf=2, ringx=8, append_ms=25, **base), cfg('c04', 2, n=3, ringf=2, ringx=8, client=1, **base),
+          cfg('c04', 'D3', n=2, ringf=1, ringx=8, append_ms=25, **base), cfg('c04', 2, n=3, ringf=2, ringx=8, client=1, **base),
           cfg('c04', 'D3', n=4, ringf=3, ringx=8, client=4, **base), cfg('c04', 'D3', n=2, n1=3, streams=2, ringf=2, ringx=8, **base),
           cfg('c04', 'D3', n=4, ringf=2, ringx=8, write_delay=6, **base), cfg('c04', 'D3', n=3, ringf=2, ringx=8, client=3, **base),
           cfg('c04', 'D4', n=3, ringf=2, ringx=8, **base), cfg('c04', 3, n=2, ringf=1, ringx=1, **base),
